@@ -30,6 +30,9 @@ type RepCase struct {
 	// Entries: the configured list, as indexes into Servers (2..6 entries)
 	Entries []int
 	ViaConf bool
+	// V6: the last address is the IPv6 loopback, configured as the bracketed literal "[::1]" (the spelling
+	// the endpoint option needs for an IPv6 literal, since the port is appended with a colon)
+	V6 bool `json:",omitempty"`
 }
 
 func execRep(c RepCase) (vh.Outcome, error) {
@@ -45,7 +48,11 @@ func execRep(c RepCase) (vh.Outcome, error) {
 	}
 	var specs []vh.CAServerSpec
 	for i, b := range c.Servers {
-		specs = append(specs, vh.CAServerSpec{IP: fmt.Sprintf("127.0.0.%d", i+2), Behaviour: b, Code: c.Codes[i], ClientAuth: "request",
+		ip := fmt.Sprintf("127.0.0.%d", i+2)
+		if c.V6 && i == len(c.Servers)-1 {
+			ip = "::1"
+		}
+		specs = append(specs, vh.CAServerSpec{IP: ip, Behaviour: b, Code: c.Codes[i], ClientAuth: "request",
 			KeyText: string(ssh.MarshalAuthorizedKey(pool()[i]))})
 	}
 	g, err := vh.StartCAGroup(specs)
@@ -55,6 +62,11 @@ func execRep(c RepCase) (vh.Outcome, error) {
 	defer g.Stop()
 	var ips []string
 	for _, e := range c.Entries {
+		if specs[e].IP == "::1" {
+			ips = append(ips, "[::1]")
+			out.Classes = append(out.Classes, "ipv6-literal-endpoint")
+			continue
+		}
 		ips = append(ips, specs[e].IP)
 	}
 	f := vh.Farm()
@@ -146,9 +158,9 @@ func walk(c RepCase, desc string, calls []call, success bool) error {
 
 func TestC17Repeated(t *testing.T) {
 	vh.Run(t, vh.Spec[RepCase]{Property: "C17", Name: "TestC17Repeated", Journal: true,
-		Rule: "1..3 addresses, each served by a real gRPC-over-TLS endpoint that signs / fails with a status code / fails on its odd and signs on its even calls / answers with empty key text / has no listener; the configured list has 2..6 entries over those addresses, so addresses repeat (a list is a sequence: an operator may list an endpoint twice to give it a second try); real signer, one try per entry. Oracle from the calls the endpoints recorded: Sign succeeds iff some call was answered with certificates, returns that endpoint's certificate, makes no call after it; the entries before it (without success: all entries) are each accounted for by a call of their address, in list order. Non-trivial: an address listed more than once.",
+		Rule: "1..3 addresses (in a quarter of the cases the last one is the IPv6 loopback, configured as the bracketed literal [::1]), each served by a real gRPC-over-TLS endpoint that signs / fails with a status code / fails on its odd and signs on its even calls / answers with empty key text / has no listener; the configured list has 2..6 entries over those addresses, so addresses repeat (a list is a sequence: an operator may list an endpoint twice to give it a second try); real signer, one try per entry. Oracle from the calls the endpoints recorded: Sign succeeds iff some call was answered with certificates, returns that endpoint's certificate, makes no call after it; the entries before it (without success: all entries) are each accounted for by a call of their address, in list order. Non-trivial: an address listed more than once.",
 		Gen: func(t *rapid.T) RepCase {
-			c := RepCase{ViaConf: rapid.Bool().Draw(t, "viaConf")}
+			c := RepCase{ViaConf: rapid.Bool().Draw(t, "viaConf"), V6: rapid.IntRange(0, 3).Draw(t, "v6") == 1}
 			ns := rapid.IntRange(1, 3).Draw(t, "nservers")
 			for i := 0; i < ns; i++ {
 				c.Servers = append(c.Servers, rapid.SampledFrom([]string{"sign", "rpcerr", "rpcerr", "flaky", "flaky", "nolistener", "empty"}).Draw(t, fmt.Sprintf("b%d", i)))
